@@ -53,6 +53,12 @@ DEFAULT_PROFILE = {
 }
 
 
+#: size scale, set by the runner from the tier (thorough explores larger machines and longer histories)
+import os as _os
+
+SCALE = {"v": float(_os.environ.get("VERIF_SCALE", "1.0"))}
+
+
 def prof(**kw):
     p = copy.deepcopy(DEFAULT_PROFILE)
     for k, v in kw.items():
@@ -60,6 +66,10 @@ def prof(**kw):
             p["w_target"].update(v)
         else:
             p[k] = v
+    if SCALE["v"] != 1.0:
+        lo, hi = p["n_states"]
+        p["n_states"] = (lo, min(16, int(hi * SCALE["v"])))
+        p["max_depth"] = min(4, p["max_depth"] + 1)
     return p
 
 
